@@ -31,6 +31,7 @@ From Coq Require Import List String ZArith Bool Arith Ascii Sorting.Permutation 
 From GinV Require Import Lib.Out Lib.PyStr Model.SelectorMap Model.Serial Proofs.SerialProofs Proofs.SerialProofs2 Proofs.SerialProofs3.
 From GinV Require Import Model.Parser Model.ParserSpec Model.Repr
                          Proofs.ParserLemmas Proofs.ParserProofs Proofs.ParserApi Proofs.ReprProofs.
+From GinV Require Import Model.Lexer Model.ReprText Proofs.ParserSim Proofs.ReprTextProofs.
 Import ListNotations.
 Open Scope string_scope.
 Open Scope list_scope.
@@ -487,6 +488,60 @@ Proof. vm_compute. reflexivity. Qed.
 
 Print Assumptions C06_value_repr_is_rendering.
 Print Assumptions C06_value_repr_is_rendering_inside.
+
+(* ------------------------------------------------------------------ *)
+(* VALUE TEXTS AT CHARACTER LEVEL (Model/ReprText.v: [repr_string v], the string Python's repr prints;
+   Model/Lexer.v: the tokenizer; proofs in Proofs/ReprTextProofs.v and Proofs/ParserSim.v).
+   [atom_lexable t]: the text of the atom t, alone, is lexed into one token of t's type and text (decided by
+   [atom_lexable_b]); 200 is the tokenizer's limit on open brackets. *)
+Theorem C06_value_string_atom_lexable_b : forall t, atom_lexable_b t = true -> atom_lexable t.
+Proof. exact atom_lexable_b_ok. Qed.
+(* the characters of repr_string v are lexed into exactly the tokens repr_toks v (types and texts; the positions
+   are the real ones), then the NEWLINE the tokenizer adds to a last line without one (empty text), then ENDMARKER *)
+Theorem C06_value_string_lexes : forall v,
+  Forall atom_lexable (pv_atoms v) -> pv_depth v <= 200 -> supported (repr_string v) = true ->
+  exists toks n e, lex (repr_string v) = Some (toks ++ [n; e]) /\
+    map ty toks = map ty (repr_toks v) /\ map text toks = map text (repr_toks v) /\
+    ty n = NEWLINE /\ text n = "" /\ ty e = ENDMARKER /\ text e = "".
+Proof. exact value_string_lexes. Qed.
+(* the value parser looks at token positions only to report error lines (and inside "@" / "%" selectors):
+   streams with the same types and texts, free of the two sigils, are accepted together, with the same value *)
+Theorem C06_value_string_positions_irrelevant : forall o a b v,
+  Forall2 (fun x y => ty x = ty y /\ text x = text y /\ text x <> "@" /\ text x <> "%") a b ->
+  run_value_api (o, a) = OT "Value" [v] -> run_value_api (o, b) = OT "Value" [v].
+Proof. exact run_value_api_transfer. Qed.
+(* END TO END FROM CHARACTERS: gin.config.parse_value (tokenizer + parser, both modelled) reads the text repr prints
+   for a value back as the value it denotes *)
+Theorem C06_value_string_reads_back : forall o v x,
+  atoms_ok o v -> denote o v = Some x ->
+  Forall atom_lexable (pv_atoms v) -> pv_depth v <= 200 -> supported (repr_string v) = true ->
+  exists ts, lex (repr_string v) = Some ts /\ run_value_api (o, ts) = OT "Value" [x].
+Proof. exact value_string_reads_back. Qed.
+
+(* the example value {'k': [-1, (2,)], 3: 'a b'} again *)
+Example C06_value_string_ex_text : repr_string C06_ex_value = "{'k': [-1, (2,)], 3: 'a b'}".
+Proof. vm_compute. reflexivity. Qed.
+Example C06_value_string_ex_atoms : Forall atom_lexable (pv_atoms C06_ex_value).
+Proof. cbn [C06_ex_value pv_atoms flat_map fst snd app]. repeat constructor; apply atom_lexable_b_ok; vm_compute; reflexivity. Qed.
+Example C06_value_string_ex_lexes :
+  option_map (map (fun t => (ty t, text t, scol t))) (lex "{'k': [-1, (2,)], 3: 'a b'}") =
+  Some [(OP, "{", 0); (STRING, "'k'", 1); (OP, ":", 4); (OP, "[", 6); (OP, "-", 7); (NUMBER, "1", 8); (OP, ",", 9);
+        (OP, "(", 11); (NUMBER, "2", 12); (OP, ",", 13); (OP, ")", 14); (OP, "]", 15); (OP, ",", 16); (NUMBER, "3", 18);
+        (OP, ":", 19); (STRING, "'a b'", 21); (OP, "}", 26); (NEWLINE, "", 27); (ENDMARKER, "", 0)].
+Proof. vm_compute. reflexivity. Qed.
+(* by computation ... *)
+Example C06_value_string_ex_reads_back_computes :
+  option_map (fun ts => run_value_api (C06_ex_oracle, ts)) (lex (repr_string C06_ex_value)) = Some (OT "Value" [C06_ex_out]).
+Proof. vm_compute. reflexivity. Qed.
+(* ... and BY the theorem, from its hypotheses *)
+Example C06_value_string_ex_reads_back_applies :
+  exists ts, lex (repr_string C06_ex_value) = Some ts /\ run_value_api (C06_ex_oracle, ts) = OT "Value" [C06_ex_out].
+Proof.
+  apply (C06_value_string_reads_back C06_ex_oracle C06_ex_value C06_ex_out C06_ex_atoms_ok C06_ex_denotes
+           C06_value_string_ex_atoms).
+  - vm_compute. repeat constructor.
+  - vm_compute. reflexivity.
+Qed.
 Print Assumptions C06_value_wf.
 Print Assumptions C06_value_denotes.
 Print Assumptions C06_value_repr_toks_ok.
@@ -512,3 +567,12 @@ Print Assumptions C06_ex_layout_texts.
 Print Assumptions C06_ex_layout_reads_back_applies.
 Print Assumptions C06_ex_layout_reads_back_computes.
 Print Assumptions C06_ex_dict_other_order.
+Print Assumptions C06_value_string_atom_lexable_b.
+Print Assumptions C06_value_string_lexes.
+Print Assumptions C06_value_string_positions_irrelevant.
+Print Assumptions C06_value_string_reads_back.
+Print Assumptions C06_value_string_ex_text.
+Print Assumptions C06_value_string_ex_atoms.
+Print Assumptions C06_value_string_ex_lexes.
+Print Assumptions C06_value_string_ex_reads_back_computes.
+Print Assumptions C06_value_string_ex_reads_back_applies.
